@@ -66,11 +66,18 @@ impl AnyCheck {
                 if c.case.backend == crate::case::Backend::BaseJit || c.kind == check::Kind::AllocFail {
                     return None;
                 }
+                if c.case.program.len() > 160 {
+                    // compiling under an interpreter is slow: small programs only
+                    return None;
+                }
                 let mut n = c.clone();
                 n.case.alloc = crate::case::AllocPlan::OFF;
                 // keep interpreted runs short
-                n.ref_steps = n.ref_steps.min(3_000);
-                n.exec_cap = n.exec_cap.min(3_000);
+                n.ref_steps = n.ref_steps.min(600);
+                n.exec_cap = n.exec_cap.min(600);
+                if let Some((a, b)) = n.case.pregrow {
+                    n.case.pregrow = Some((a.min(300), b.min(300)));
+                }
                 Some(AnyCheck::Prog(n))
             }
             AnyCheck::Tape(c) => {
